@@ -196,7 +196,99 @@ pub fn run_into(rep: &Report) {
     });
 }
 
+// ---------------------------------------------------------------- file names that are not UTF-8
+
+fn raw_walk(root: &std::path::Path, rel: &[u8], out: &mut std::collections::BTreeMap<Vec<u8>, (Vec<u8>, u64, i128)>) {
+    use std::os::unix::ffi::{OsStrExt, OsStringExt};
+    use std::os::unix::fs::MetadataExt;
+    let dir = if rel.is_empty() { root.to_path_buf() } else { root.join(std::ffi::OsStr::from_bytes(rel)) };
+    if let Ok(rd) = std::fs::read_dir(&dir) {
+        for e in rd.flatten() {
+            let name = e.file_name().into_vec();
+            let mut r = rel.to_vec();
+            if !r.is_empty() {
+                r.push(b'/');
+            }
+            r.extend_from_slice(&name);
+            let p = root.join(std::ffi::OsStr::from_bytes(&r));
+            if let Ok(md) = std::fs::symlink_metadata(&p) {
+                if md.is_dir() {
+                    raw_walk(root, &r, out);
+                } else {
+                    out.insert(r, (std::fs::read(&p).unwrap_or_default(), md.ino(), md.mtime() as i128 * 1_000_000_000 + md.mtime_nsec() as i128));
+                }
+            }
+        }
+    }
+}
+
+/// Sources and directories whose names are not valid UTF-8 (legal on Linux), with by-standers at the names a
+/// lossy conversion would produce. Every mode: only the real output and the temp target may change.
+pub fn nonutf8_names(rep: &Report) {
+    use std::os::unix::ffi::OsStrExt;
+    let os = |b: &[u8]| std::ffi::OsStr::from_bytes(b).to_os_string();
+    for (mi, mode) in MODES.iter().enumerate() {
+        for built in [false, true] {
+            let scratch = Scratch::new();
+            let base = scratch.p("p");
+            std::fs::create_dir_all(base.join(os(b"d\xff"))).unwrap();
+            std::fs::create_dir_all(base.join(os("d\u{fffd}".as_bytes()))).unwrap();
+            let w = |rel: &[u8], content: &[u8]| std::fs::write(base.join(os(rel)), content).unwrap();
+            w(b"caf\xe9.txt.txtpp", b"x\n-TXTPP#temp t.out\n-b\n");
+            w(b"d\xff/inner.txt.txtpp", b"inner\n");
+            w("caf\u{fffd}.txt".as_bytes(), b"by-stander\n");
+            w("d\u{fffd}/inner.txt".as_bytes(), b"by-stander\n");
+            w(b"caf.txt", b"by-stander\n");
+            if built {
+                w(b"caf\xe9.txt", b"x\n");
+                w(b"t.out", b"b");
+                w(b"d\xff/inner.txt", b"inner\n");
+            }
+            set_sentinel(&base);
+            let mut before = Default::default();
+            raw_walk(&base, b"", &mut before);
+            let r = crate::ctl::run_canonical(txtpp::Config {
+                base_dir: base.clone(),
+                shell_cmd: String::new(),
+                inputs: vec![".".into()],
+                recursive: true,
+                num_threads: 1,
+                mode: mode.clone(),
+                verbosity: txtpp::Verbosity::Quiet,
+                trailing_newline: true,
+            });
+            rep.tv(1);
+            rep.tr(1);
+            rep.add("non_utf8_name_runs", 1);
+            let mut after = Default::default();
+            raw_walk(&base, b"", &mut after);
+            let allowed: Vec<&[u8]> = vec![b"caf\xe9.txt", b"t.out", b"d\xff/inner.txt"];
+            let keys: BTreeSet<&Vec<u8>> = before.keys().chain(after.keys()).collect();
+            for k in keys {
+                if before.get(k) != after.get(k) && !allowed.iter().any(|a| *a == &k[..]) {
+                    rep.violate(
+                        "foreign-path-touched",
+                        format!("non-UTF-8 names, mode {:?}, outputs {}: {:?} changed (verdict {})", mode, if built { "present" } else { "absent" }, show(k), r.verdict.kind()),
+                        json!({"engine": "strace10", "nonutf8": true, "mode": mi, "built": built}),
+                    );
+                }
+            }
+            if !r.clean() {
+                rep.violate("abnormal-end", format!("non-UTF-8 names, mode {:?}: {}", mode, r.verdict.kind()), json!({"engine": "strace10", "nonutf8": true, "mode": mi, "built": built}));
+            }
+        }
+    }
+}
+
 pub fn replay(v: &serde_json::Value) -> bool {
+    if v["nonutf8"].as_bool() == Some(true) {
+        let rep = Report::new("C10", "quick");
+        nonutf8_names(&rep);
+        for x in rep.violations.lock().unwrap().iter() {
+            println!("  [{}] {}", x.signature, x.message);
+        }
+        return rep.n_violations() > 0;
+    }
     let rep = Report::new("C10", "quick");
     let b = Bench::new();
     let mut fc = FreshCache::new();
